@@ -1,4 +1,5 @@
 import WP.Model.Hist
+import WP.Model.Access
 /-
   Line-protocol driver: one operation per line on stdin, one canonical result line on stdout.
   `ok <fields…>` | `err <ErrorName>` | `bad-op`.  See DESIGN.md Appendix B.
@@ -45,6 +46,13 @@ def stepPure (toks : List String) : Option String :=
   | ["ltd", tick, price, lo, hi, delta] => do
       let tick ← tick.toInt?; let price ← price.toNat?; let lo ← lo.toInt?; let hi ← hi.toInt?; let delta ← delta.toInt?
       pure (showR ((calculateLiquidityTokenDeltas tick price lo hi delta).map fun (a, b) => s!"{a} {b}"))
+  | ["posauth", owner, dlg, damt, _amt, key, sg] => do
+      let owner ← owner.toNat?; let damt ← damt.toNat?; let key ← key.toNat?; let sg ← b01 sg
+      let dlg : Option Nat ← (if dlg == "-" then some none else dlg.toNat?.map some)
+      pure (if verifyPositionAuthority owner dlg damt key sg then "ok" else "rej")
+  | ["ldta", o, w, disc, wp, m] => do
+      let o ← b01 o; let w ← b01 w; let disc ← disc.toNat?; let wp ← b01 wp; let m ← b01 m
+      pure (match loadTickArray o w disc wp m with | none => "ok" | some e => "err " ++ e)
   | ["mdr", n0, n1, d, up] => do
       let n0 ← n0.toNat?; let n1 ← n1.toNat?; let d ← d.toNat?; let up ← b01 up
       pure (showR ((checkedMulDivRoundUpIf n0 n1 d up).map toString))
